@@ -208,3 +208,22 @@ CHECKS["C16"] = dict(
                      "TestC16Route.offwire_blocks": 80, "TestC16Route.foreign_requests": 150, "TestC16Route.completions": 100}),
     assumptions=["the graphsync double runs the outgoing-request hook before Request returns, as go-graphsync v0.18 does"],
 )
+
+CHECKS["C08"] = dict(
+    level="exploration",
+    rule=("C08Chan: responder channel (push: limited by received, pull: by queued) with a PRNG limit (1 in 5: limit 0), PRNG unique block sizes that now and then land exactly on / "
+          "one byte short of the limit, replays, 'sent' noise, reopen points (cold caches) and after every pause a new limit drawn around the progress (0, progress-1, progress, "
+          "progress+1, larger); a 10-line running-sum model predicts for every report whether it returns the pause signal; DataLimitExceeded event, paused flag, stored limit and "
+          "progress checked after each report. C08Mgr: the same through the real manager as responder (validator supplies the limit): pause signal, notification of the initiator "
+          "(network Update(paused) for push / message returned with the block for pull, to the right peer), no resume without re-validation, accepting UpdateValidationStatus resumes "
+          "iff new limit is 0 or exceeds the progress (boundary values), rejecting update fails the channel and closes the transport, optional manager restart while paused. "
+          "distinct = (direction, zero limit, #pauses, reopened, #limit changes)."),
+    parts=[
+        dict(test="TestC08Chan", quick=240, thorough=16000, per_shard=30),
+        dict(test="TestC08Mgr", quick=200, thorough=14000, per_shard=25),
+    ],
+    floors=dict(any={"TestC08Chan.pauses": 300, "TestC08Chan.reopens": 200, "TestC08Chan.zero_limit_cases": 20, "TestC08Mgr.pauses": 150,
+                     "TestC08Mgr.resuming_updates": 60, "TestC08Mgr.non_resuming_updates": 40, "TestC08Mgr.rejecting_updates": 20, "TestC08Mgr.reopens": 30}),
+    assumptions=["the transport double obeys pause signals (stops reporting), as a real transport does; blocks already in flight cannot be recalled",
+                 "only block directions that can occur on a side are generated (the limit cache is per channel)"],
+)
